@@ -2,6 +2,7 @@ mod api;
 mod common;
 mod fixtures;
 mod refmodel;
+mod scen_blind;
 mod scen_codec;
 mod scen_proof;
 mod scen_robust;
@@ -92,6 +93,31 @@ static C09: Check = Check {
     exhaustive_after: Some(48),
 };
 
+static C05: Check = Check {
+    property: "C05",
+    level: "exploration",
+    rule: "one run = one blind issuance + presentation session Holder(commit) -> Issuer(blind_sign) -> Holder(verify_blind_sign, blind_proof_gen) -> Verifier(blind_proof_verify); run indexes 0..642 enumerate, for both suites, all 321 (L, M, disclosure pair) combinations with L + M <= 5 (every (L,M) in the triangle x all 2^L x 2^M disclosure pairs); later runs draw shapes up to (40, 40); issuance without commitment included; production randomness through the entropy seam with EINTR / short reads; holder crash-restart between commit and receipt (blind factor survives as 32 octets) and before presenting; neutral faults only; a case = one delivered frame",
+    quick_runs: 700,
+    thorough_runs: 2600,
+    run: scen_blind::run_c05,
+    assumptions: &["a blind signature issued without commitment is checked with no committed messages and an absent (zero) blind factor (DESIGN.md Appendix A.7)"],
+    real: REAL,
+    simulated: SIMULATED,
+    exhaustive_after: Some(642),
+};
+static C06: Check = Check {
+    property: "C06",
+    level: "fault_enumeration",
+    rule: "one run = one honest blind session (shape from the same 642-combination table), then: on the BlindRequest hop every bit flip of the commitment-with-proof in slices of 112 bits across runs, truncation/extension by whole scalars, dropped/inserted response, cross-suite replay, commitment/proof splices with a second honest request; on the BlindCredential hop every single-element fault of the committed and signer message lists, message moved across the signer/committed boundary, 32 blind-factor bit flips per run (8 runs cover all 256), blind factor removed, header faults, 40 signature bit flips, pk faults, misroute; on the Presentation hop L corruption, every list / index fault of both disclosed lists, pair moved between lists, header/ph faults, 64 proof bit flips per run, whole-scalar truncation/extension, misroute; verdict by content",
+    quick_runs: 64,
+    thorough_runs: 642,
+    run: scen_blind::run_c06,
+    assumptions: &["the issuer must refuse every request that is not byte-identical to an honest request for its suite (requests extended by 1..31 octets are C09's clause)", "a MustReject frame is accepted by correct code with probability <= 2^-128", "crashes are counted as refusal here and charged to C08"],
+    real: REAL,
+    simulated: SIMULATED,
+    exhaustive_after: None,
+};
+
 fn node_init() {
     zkryptium::verif_hooks::install(Some(sim::on_tick));
 }
@@ -108,7 +134,7 @@ fn main() {
             Err(e) => { eprintln!("refmodel != fixtures: {e} (harness error)"); std::process::exit(2) }
         }
     }
-    let checks: Vec<&Check> = vec![&C01, &C02, &C03, &C04, &C08, &C09];
+    let checks: Vec<&Check> = vec![&C01, &C02, &C03, &C04, &C05, &C06, &C08, &C09];
     if let Err(e) = fixtures::check_all() {
         eprintln!("refmodel != fixtures: {e} (harness error)");
         std::process::exit(2);
